@@ -173,6 +173,11 @@ def all_strings(maxlen, alpha=ALPHA):
             yield "".join(tup)
 
 
+# names of numbered groups: strings of digits, not numbers ("1" and "01" are different groups); non-contiguous,
+# non-ascending, with leading zeros, longer than a machine word
+GROUP_IDS = ["1", "2", "3", "10", "01", "007", "0", "12345678901234567890", "9"]
+
+
 class ProgGen:
     """random program trees over a rule table"""
 
@@ -182,6 +187,7 @@ class ProgGen:
         self.rules = []
         self.masks = []
         self.next_group = 1
+        self.pool = rng.sample(GROUP_IDS, len(GROUP_IDS))
         self.ext_names = {}
         self.allow_masks = masks
 
@@ -201,8 +207,8 @@ class ProgGen:
             if depth <= 0 or r < 0.6:
                 out.append(self.rule_node())
             elif r < 0.75:
-                g = self.next_group
                 self.next_group += 1
+                g = self.pool.pop() if self.pool else str(self.next_group + 20)
                 nd = {"k": "iter", "n": g, "ops": self.nodes(depth - 1, rng.choice([1, 1, 2, 3]), True),
                       "def": rng.choice(["before", "before", "after"])}
                 out.append(nd)
@@ -344,6 +350,26 @@ def specimen_cases(maxlen, tier):
                 pass
         c["inputs"] = [cps(s) for s in keep]
         yield c
+    # iterative and nested groups whose first yielded steps come from inside the group (abandoned-generator battery:
+    # every step index), also inside an external module, and a group called twice
+    rules = [{"pat": "aa", "tpl": "a"}, {"pat": "ab", "tpl": "ba"}, {"pat": "  ", "tpl": " "}, {"pat": "(b)a", "tpl": r"\1"}]
+    g2 = {"k": "iter", "n": 2, "ops": [{"k": "rule", "id": 2}], "def": "before"}
+    g1 = {"k": "iter", "n": 1, "ops": [{"k": "rule", "id": 0}, g2, {"k": "rule", "id": 1}], "def": "before"}
+    flat = {"k": "iter", "n": 1, "ops": [{"k": "rule", "id": 0}], "def": "before"}
+    mod = {"k": "ext", "name": "m0", "active": True, "ops": [copy.deepcopy(flat)]}
+    for prog in ([flat], [g1, {"k": "rule", "id": 3}], [mod, {"k": "rule", "id": 3}],
+                 [flat, {"k": "rule", "id": 1}, copy.deepcopy(flat)]):
+        for via in ("string", "file"):
+            yield make_case(copy.deepcopy(prog), rules, [], ["aaaab", "aabb  a", "a   aa", "", "ba"], tok=" ", via=via,
+                            kind="specimen")
+    # MANY ROUNDS: a group that needs as many rounds as the input is long (one character per round)
+    for seq, ins in (([("^(a*)a$", r"\1")], ["a" * 30, "a" * 70, "a" * 150, "b" + "a" * 40]),
+                     ([("ab", "ba")], ["a" * 25 + "b", "a" * 64 + "b", "a" * 100 + "b" + "a" * 20])):
+        rules = [{"pat": p, "tpl": tp} for p, tp in seq]
+        c = make_case([{"k": "iter", "n": "10", "ops": [{"k": "rule", "id": 0}], "def": "before"}], rules, [], ins,
+                      tok=" ", via="string", kind="specimen")
+        c["round_cap"] = 200
+        yield c
     # `>y >x >y`: a module called twice with another one in between, both active / one active
     rules = [{"pat": "a", "tpl": "b"}, {"pat": "b", "tpl": "ab"}, {"pat": "(a)b", "tpl": r"\1"}]
     for act_x, act_y in ((True, True), (False, True), (True, False)):
@@ -352,6 +378,31 @@ def specimen_cases(maxlen, tier):
         for via in ("string", "file"):
             yield make_case([y, x, copy.deepcopy(y), {"k": "rule", "id": 2}], rules, [], strings[:40], tok=" ", via=via,
                             kind="specimen")
+
+
+LONG_SIZES = [1023, 1024, 1025, 4095, 4096, 4097]
+HUGE_SIZES = [65535, 65536, 65537]
+
+
+def long_cases(tier):
+    """LONG INPUTS, direct oracle only (the model is interpreted): strings around 1024 / 4096 / 65536 characters
+    in which almost every position is a match, and iterative groups that need hundreds / thousands of rounds"""
+    def mk(seq, inputs, it=False, **kw):
+        rules = [{"pat": p, "tpl": tp} for p, tp in seq]
+        body = [{"k": "rule", "id": i} for i in range(len(rules))]
+        prog = [{"k": "iter", "n": 1, "ops": body, "def": "before"}] if it else body
+        c = make_case(prog, rules, [], inputs, via="string", kind="long")
+        c.update(len_cap=10 ** 7, round_cap=10 ** 5)
+        c.update(kw)
+        return c
+    base = lambda L: ("ab a" * (L // 4 + 1))[:L]       # noqa: E731
+    progs = [[("a", "bb")], [("(a)(b)", r"\2\1")], [("b*", "-")], [(" +", " "), ("(a)", r"\1\1")], [("[ab]", "")]]
+    for i, seq in enumerate(progs):
+        sizes = LONG_SIZES + (HUGE_SIZES if (tier != "quick" or i < 1) else [])
+        yield mk(seq, [base(L) for L in sizes])
+    yield mk([("^(a*)a$", r"\1")], ["a" * 300, "a" * (700 if tier == "quick" else 3000)], it=True)
+    yield mk([("ab", "ba")], ["a" * 500 + "b"], it=True)
+    yield mk([("aa", "a")], ["a" * 65537, "a" * 4097], it=True)
 
 
 def gen_case(rng, mode=None, tok=False):
@@ -576,6 +627,163 @@ def build(case, tmpdir, want_loaded=None, ctx=None):
         return r
 
 
+def write_program(rd, d, skip=(), main_dir=None):
+    """the files of a rendered program in directory `d` (the main text possibly elsewhere)"""
+    os.makedirs(d, exist_ok=True)
+    for fn, lines in rd.files.items():
+        with open(os.path.join(d, fn), "w", encoding="utf-8") as f:
+            f.write("\n".join(lines) + "\n")
+    for name, lines in rd.modules:
+        if name not in skip:
+            with open(os.path.join(d, name + ".rpp"), "w", encoding="utf-8") as f:
+                f.write("\n".join(lines) + "\n")
+    md = main_dir or d
+    os.makedirs(md, exist_ok=True)
+    with open(os.path.join(md, "main.rpp"), "w", encoding="utf-8") as f:
+        f.write("\n".join(rd.main) + "\n")
+    return os.path.join(md, "main.rpp")
+
+
+CONFIG_LAYOUTS = ["same", "rpp", "uprpp", "declared", "argument"]
+
+
+def api_variants(case, tmpdir, active, counts=None):
+    """The same program through the other public construction paths: `from_file(path, directory=)` with the
+    sub-files in another directory, `from_file(path, modules=)` with one external module preloaded (its file
+    absent), `from_config` in every directory layout it resolves (`repp-calls` = the active modules, `apply`
+    called WITHOUT `active`), string modules constructed under another name than their key.  Yields
+    (label, per-input results | {"err": …})."""
+    rd = Rendered(case)
+    inputs = [uncps(i) for i in case["inputs"]]
+
+    def results(r, act):
+        out = []
+        for s in inputs:
+            try:
+                x = with_timeout(2.0, lambda: r.apply(s) if act is None else r.apply(s, active=act), floor=0.5)
+                out.append({"string": cps(x.string), "startmap": list(x.startmap), "endmap": list(x.endmap)})
+            except Timeout:
+                out.append({"err": "timeout"})
+        return out
+
+    def attempt(label, f):
+        if counts is not None:
+            counts[label.split(" ")[0]] = counts.get(label.split(" ")[0], 0) + 1
+        try:
+            with warnings.catch_warnings():
+                warnings.simplefilter("ignore")
+                return label, f()
+        except Exception as e:     # noqa: BLE001 - mapped to an enum
+            return label, {"err": err_name(e)}
+    key = sum(len(x) for x in rd.main) + len(rd.files) * 7 + len(rd.modules) * 3 + len(inputs)
+    # 1. directory=
+    d = tempfile.mkdtemp(dir=tmpdir)
+    path = write_program(rd, os.path.join(d, "sub"), main_dir=os.path.join(d, "top"))
+    yield attempt("from_file(directory=) sub-files in another directory",
+                  lambda: results(REPP.from_file(path, directory=os.path.join(d, "sub")), active))
+    # 2. modules= : one external module preloaded, its file absent
+    if rd.modules:
+        called = [ln[1:].rstrip() for ln in rd.main if ln.startswith(">") and not ln[1:].rstrip().isdigit()]
+        x = called[key % len(called)] if called else rd.modules[-1][0]
+        d = tempfile.mkdtemp(dir=tmpdir)
+        write_program(rd, os.path.join(d, "all"))
+        path2 = write_program(rd, os.path.join(d, "part"), skip=(x,))
+
+        def premod():
+            pre = REPP.from_file(os.path.join(d, "all", x + ".rpp"))
+            return results(REPP.from_file(path2, modules={x: pre}), active)
+        yield attempt("from_file(modules=) one module preloaded", premod)
+    # 3. from_config
+    layout = CONFIG_LAYOUTS[key % len(CONFIG_LAYOUTS)]
+    d = tempfile.mkdtemp(dir=tmpdir)
+    names = ["main"] + [n for n, _ in rd.modules]
+    conf = ";; generated\nrepp-modules := %s.\n; a comment\nrepp-tokenizer := main.\n" % " ".join(names)
+    if active:
+        conf += "repp-calls := %s.\n" % ("\n  ".join(active) if key % 2 else " ".join(active))
+    kw = {}
+    if layout == "same":
+        rdir, cdir = d, d
+    elif layout == "rpp":
+        rdir, cdir = os.path.join(d, "rpp"), d
+    elif layout == "uprpp":
+        rdir, cdir = os.path.join(d, "rpp"), os.path.join(d, "pet")
+    elif layout == "declared":
+        rdir, cdir = os.path.join(d, "elsewhere"), os.path.join(d, "pet")
+        conf += 'repp-directory := "%s".\n' % rdir
+    else:
+        rdir, cdir = os.path.join(d, "elsewhere"), os.path.join(d, "pet")
+        kw = {"directory": __import__("pathlib").Path(rdir)}
+    write_program(rd, rdir)
+    os.makedirs(cdir, exist_ok=True)
+    with open(os.path.join(cdir, "repp.set"), "w", encoding="utf-8") as f:
+        f.write(conf)
+    lab, got = attempt("from_config layout=" + layout,
+                       lambda: results(REPP.from_config(os.path.join(cdir, "repp.set"), **kw), None))
+    if layout == "declared" and got == {"err": "AttributeError"}:
+        # observed, outside the property: a directory named in the file (or given as a str) stays a str and
+        # `directory.joinpath` raises; the same program is then loaded with the directory given as a Path
+        if counts is not None:
+            counts["from_config:declared_directory_AttributeError"] = counts.get("from_config:declared_directory_AttributeError", 0) + 1
+        lab, got = attempt("from_config layout=declared+argument",
+                           lambda: results(REPP.from_config(os.path.join(cdir, "repp.set"),
+                                                            directory=__import__("pathlib").Path(rdir)), None))
+    yield lab, got
+    # 4. string modules constructed without / under another name: the key of `modules` is what `>name` and `active` mean
+    if rd.modules and not rd.files:
+        def renamed():
+            ms = {}
+            for i, (name, lines) in enumerate(rd.modules):
+                ms[name] = REPP.from_string("\n".join(lines), name=(None if (i + key) % 2 else "zz" + name), modules=ms)
+            return results(REPP.from_string("\n".join(rd.main), modules=ms), active)
+        yield attempt("from_string(modules=) modules built under another name", renamed)
+
+
+def config_error_paths(tmpdir):
+    """the error branches of REPP.from_config (file missing, repp-modules / repp-tokenizer missing, no directory
+    found) and of _compile (a pattern `re` rejects): each must raise, none may build a module"""
+    fails = []
+    d = tempfile.mkdtemp(dir=tmpdir)
+    with open(os.path.join(d, "main.rpp"), "w", encoding="utf-8") as f:
+        f.write("!a\tb\n")
+
+    def expect(label, text, where="repp.set", errs=(R.REPPError,)):
+        path = os.path.join(d, where)
+        if text is not None:
+            os.makedirs(os.path.dirname(path), exist_ok=True)
+            with open(path, "w", encoding="utf-8") as f:
+                f.write(text)
+        try:
+            with warnings.catch_warnings():
+                warnings.simplefilter("ignore")
+                REPP.from_config(path)
+        except errs:
+            return
+        except Exception as e:      # noqa: BLE001
+            fails.append({"clause": "from_config: wrong exception on " + label, "detail": err_name(e)})
+            return
+        fails.append({"clause": "from_config: no error on " + label, "detail": repr(text)})
+    expect("a missing configuration file", None, where="nosuch.set")
+    expect("a file without repp-modules", "repp-tokenizer := main.\n")
+    expect("a file without repp-tokenizer", "repp-modules := main.\n")
+    expect("a tokenizer module found in no directory", "repp-modules := other.\nrepp-tokenizer := other.\n", where="x/repp.set")
+    import logging
+    for text, errs in (("!a(\tb", (re.error,)), ("!a](\tb", (re.error, AttributeError)), ("=a(", (re.error,))):
+        try:
+            logging.disable(logging.CRITICAL)
+            try:
+                with warnings.catch_warnings():
+                    warnings.simplefilter("ignore")
+                    REPP.from_string(text)
+            finally:
+                logging.disable(logging.NOTSET)
+            fails.append({"clause": "a pattern that re rejects loads without an error", "detail": repr(text)})
+        except errs:
+            pass
+        except Exception as e:      # noqa: BLE001
+            fails.append({"clause": "a pattern that re rejects raises something else", "detail": repr((text, err_name(e)))})
+    return fails
+
+
 def pieces(pat, out):
     """maximal separator-free pieces [(a, b)] of `out`, via re.split with the separators kept"""
     parts = re.split("(" + pat + ")", out)
@@ -600,6 +808,7 @@ def all_ext_names(nodes, acc=None):
 
 
 BATTERY_INPUTS = 2
+BATTERY = {}
 BATTERY_PATS = [None, r"[ \t]+", " ", ",", "x*"]
 
 
@@ -796,12 +1005,83 @@ def purity_battery(case, r, ctx, obs, active):
             for s in inputs:
                 if toks(f, s, p) != tfirst[(s, p)]:
                     fail("purity: tokenize on the reused REPP object differs from a freshly constructed one", (s, p))
+    def abandoned():
+        """STATE LEFT BEHIND: a trace() generator abandoned while suspended at a step yielded from inside a group
+        (never resumed / dropped / dropped and collected / an exception thrown into it at that step), or a call
+        that raised (input of a wrong type), then ordinary calls on the SAME object: they must give what the first
+        calls gave.  Specimen programs: every step index and every way; other programs: a few indices."""
+        import gc
+        every = case["kind"] == "specimen"
+        kept = []
+        for s in inputs:
+            full = list(r.trace(s, active=active, verbose=True))
+            want_steps = [(st.input, st.output, st.applied) for st in full[:-1]]
+            n = len(want_steps)
+            if every and n <= 30:
+                ks = list(range(1, n + 1))
+            elif every:
+                ks = sorted({1, 2, 3, n // 3, n // 2, n - 1, n})
+            else:
+                ks = sorted({1, (n + 1) // 2, n} & set(range(1, n + 1)))
+            ways = ("keep", "drop", "gc", "throw", "close")
+            for k in ks:
+                for way in (ways if every else (ways[k % len(ways)],)):
+                    g = r.trace(s, active=active, verbose=True)
+                    for _ in range(k):
+                        next(g)
+                    if way == "keep":
+                        kept.append(g)
+                    elif way == "throw":
+                        try:
+                            g.throw(RuntimeError("injected"))
+                        except (RuntimeError, StopIteration):
+                            pass
+                    elif way == "close":
+                        g.close()
+                    del g
+                    if way == "gc":
+                        gc.collect(0)
+                    for s2 in inputs:
+                        got = res(r, s2, active)
+                        if got != base[s2]:
+                            fail("state across calls: apply after a trace generator was abandoned inside the program "
+                                 "differs from the first call", (s, "step %d of %d" % (k, n), way, s2, got[0], base[s2][0]))
+                            return
+                    again = [(st.input, st.output, st.applied) for st in list(r.trace(s, active=active, verbose=True))[:-1]]
+                    if again != want_steps:
+                        fail("state across calls: trace after a trace generator was abandoned inside the program differs "
+                             "from the first trace", (s, "step %d of %d" % (k, n), way))
+                        return
+            for badarg in (None, b"ab", 7):
+                try:
+                    r.apply(badarg, active=active)
+                except Exception:      # noqa: BLE001 - any exception: the call failed half-way
+                    pass
+                try:
+                    list(r.trace(badarg, active=active))
+                except Exception:      # noqa: BLE001
+                    pass
+                for s2 in inputs:
+                    got = res(r, s2, active)
+                    if got != base[s2]:
+                        fail("state across calls: apply after a call that raised differs from the first call",
+                             (repr(badarg), s2, got[0], base[s2][0]))
+                        return
+        del kept[:]
     try:
         with warnings.catch_warnings():
             warnings.simplefilter("ignore")
             with_timeout(2.0, go)
     except Timeout:
         pass
+    if has_kind(case["prog"], "iter") or has_kind(case["prog"], "ext"):
+        try:
+            with warnings.catch_warnings():
+                warnings.simplefilter("ignore")
+                with_timeout(4.0, abandoned, floor=1.0)
+            BATTERY["abandon_batteries"] = BATTERY.get("abandon_batteries", 0) + 1
+        except Timeout:
+            BATTERY["abandon_timeouts"] = BATTERY.get("abandon_timeouts", 0) + 1
     return fails
 
 
@@ -881,7 +1161,32 @@ def prune_loaded(ans, pre):
     return {"ok": {"main": pm(ans["ok"]["main"]), "mods": dict(sorted(mods.items()))}}
 
 
-def load_request(lines, files, has_dir, pre, fuel=3000):
+EOL_STYLES = ["crlf", "nofinal", "mixed", "cr", "trailing", "lf"]
+MIXED_EOLS = ["\n", "\r\n", "\x0c", "\x85", "\u2028", "\x1c", "\r", "\x0b", "\u2029", "\x1d", "\x1e"]
+BREAK_LINES = ["!a\tb\x0cc", "!x\x85\ty", ";c\u2028!a\tb", "!a\tb\r", "#1\x0b!a\tb\x1e#\x1d>1"]
+
+
+def join_text(lines, eol):
+    """the TEXT of a file / of the string given to from_string, for a line-terminator style"""
+    if eol == "crlf":
+        return "".join(x + "\r\n" for x in lines)
+    if eol == "cr":
+        return "".join(x + "\r" for x in lines)
+    if eol == "nofinal":
+        return "\n".join(lines)
+    if eol == "trailing":
+        return "".join(x + "\n" for x in lines) + "\n\n  \n\n"
+    if eol == "mixed":
+        return "".join(x + MIXED_EOLS[(i + len(lines)) % len(MIXED_EOLS)] for i, x in enumerate(lines))
+    return "".join(x + "\n" for x in lines)
+
+
+def load_request(lines, files, has_dir, pre, fuel=3000, eol=None):
+    if eol is not None:
+        # the model gets the TEXTS and splits them itself (Text.lean `splitLines`, `loadText`)
+        return {"text": cps(join_text(lines, eol)),
+                "ftexts": [[cps(fn), cps(join_text(ls, eol))] for fn, ls in sorted(files.items())],
+                "hasDir": bool(has_dir), "pre": [cps(x) for x in pre], "fuel": fuel}
     return {"lines": [cps(x) for x in lines], "files": [[cps(fn), [cps(x) for x in ls]] for fn, ls in sorted(files.items())],
             "hasDir": bool(has_dir), "pre": [cps(x) for x in pre], "fuel": fuel}
 
@@ -960,7 +1265,7 @@ def jstep(st, rule_id, mask_id):
             "sm": list(st.startmap), "em": list(st.endmap)}
 
 
-def observe(case, tmpdir, want_tokens=True, battery=True):
+def observe(case, tmpdir, want_tokens=True, battery=True, session=False):
     """Everything both checks look at, from the real code.  Returns a dict:
     load / tree / runs[...] with steps, string, maps, applysame, shown, tokens, yy, reparsed, eng, seps"""
     loaded = []
@@ -1045,7 +1350,88 @@ def observe(case, tmpdir, want_tokens=True, battery=True):
             run["seps"] = [[m.start(), m.end()] for m in re.finditer(pat, res.string)]
         obs["runs"].append(run)
     obs["purity"] = purity_battery(case, r, ctx, obs, active) if battery else []
+    if session and not any("err" in run for run in obs["runs"]):
+        script = session_script(case)
+        if script is not None:
+            try:
+                with warnings.catch_warnings():
+                    warnings.simplefilter("ignore")
+                    answers = with_timeout(3.0, lambda: run_session(case, ctx, script, rule_id, mask_id, obs, engseen),
+                                           floor=0.5)
+                obs["session"] = dict(script, answers=answers)
+            except (Timeout, Diverges):
+                pass
     return obs
+
+
+def session_script(case):
+    """ONE object, a history of calls: default activations from the constructor, activate / deactivate (also
+    twice, also of a module that is not active), apply and trace with `active` left out, empty, in another
+    order and with duplicates — the calls of `Verif.C13.Link.runCalls`"""
+    names = sorted(all_ext_names(case["prog"]))
+    if not names or not case["inputs"]:
+        return None
+    if case["kind"] != "specimen" and len(json.dumps(case["prog"])) % 2:
+        return None          # every second generated program (time)
+    x, y = names[0], names[-1]
+    s0, s1 = case["inputs"][0], case["inputs"][-1]
+    d0 = [x] if len(case["inputs"]) % 2 else []
+
+    def ap(s, a):
+        return {"c": "apply", "s": s, "active": None if a is None else [cps(n) for n in a]}
+
+    def tr(s, a, v):
+        return {"c": "trace", "s": s, "active": None if a is None else [cps(n) for n in a], "verbose": v}
+    calls = [ap(s0, None), {"c": "activate", "n": cps(y)}, ap(s1, None), tr(s0, [x], True),
+             {"c": "deactivate", "n": cps(x)}, tr(s1, [y, x, y], False), {"c": "activate", "n": cps(x)},
+             {"c": "activate", "n": cps(x)}, {"c": "deactivate", "n": cps(y)}, {"c": "deactivate", "n": cps(y)},
+             tr(s0, None, True), ap(s1, []), {"c": "deactivate", "n": cps("nosuch")}, ap(s1, None)]
+    return {"defaults": [cps(n) for n in d0], "calls": calls}
+
+
+def run_session(case, ctx, script, rule_id, mask_id, obs, engseen):
+    """the script on ONE real object; the engine answers met under every resolved active set are added to
+    obs["eng"] / obs["meng"] (read from a second object so that the observed one sees only the script)"""
+    D = set(uncps(n) for n in script["defaults"])
+    o = ctx["fresh"](active=sorted(D))
+    probe = ctx["fresh"]()
+    answers = []
+    for c in script["calls"]:
+        if c["c"] == "activate":
+            o.activate(uncps(c["n"]))
+            D.add(uncps(c["n"]))
+            answers.append(None)
+        elif c["c"] == "deactivate":
+            o.deactivate(uncps(c["n"]))
+            D.discard(uncps(c["n"]))
+            answers.append(None)
+        else:
+            s = uncps(c["s"])
+            act = None if c["active"] is None else [uncps(n) for n in c["active"]]
+            resolved = sorted(D) if act is None else sorted(set(act))
+            prog2 = map_nodes(case["prog"], lambda nd: [dict(nd, active=(nd["name"] in resolved))]
+                              if nd["k"] == "ext" and nd["active"] != (nd["name"] in resolved) else None)
+            ref_run(dict(case, prog=prog2), prog2, s, [])          # Diverges: no session for this program
+            for st in list(probe.trace(s, active=resolved, verbose=True))[:-1]:
+                op = st.operation
+                if isinstance(op, R._REPPRule):
+                    key = (rule_id[(op.pattern, op.replacement)], st.input)
+                    if key not in engseen:
+                        engseen.add(key)
+                        obs["eng"].append({"id": key[0], "s": cps(st.input), "ms": [jmatch(m) for m in op._re.finditer(st.input)]})
+                elif isinstance(op, R._REPPMask):
+                    key = ("m", mask_id[op.pattern], st.input)
+                    if key not in engseen:
+                        engseen.add(key)
+                        obs["meng"].append({"id": key[1], "s": cps(st.input), "ms": [jmatch(m) for m in op._re.finditer(st.input)]})
+            if c["c"] == "apply":
+                x = o.apply(s) if act is None else o.apply(s, active=iter(act))
+                answers.append({"string": cps(x.string), "startmap": list(x.startmap), "endmap": list(x.endmap)})
+            else:
+                t = list(o.trace(s, verbose=c["verbose"]) if act is None else o.trace(s, active=tuple(act), verbose=c["verbose"]))
+                answers.append({"steps": [jstep(st, rule_id, mask_id) for st in t[:-1]], "string": cps(t[-1].string),
+                                "startmap": list(t[-1].startmap), "endmap": list(t[-1].endmap)})
+    return answers
 
 
 def jytok(t):
@@ -1065,7 +1451,7 @@ def ref_run(case, nodes, s, log):
             o = re.sub(ru["pat"], ru["tpl"], s)
             log.append(["rule", nd["id"], s, o])
             s = o
-            if len(s) > LEN_CAP:
+            if len(s) > case.get("len_cap", LEN_CAP):
                 raise Diverges()        # growth beyond the size the (interpreted) model is run on
         elif k == "mask":
             log.append(["mask", nd["id"], s, s])
@@ -1077,7 +1463,7 @@ def ref_run(case, nodes, s, log):
                 if o == s:
                     break
                 s = o
-                if rounds > ROUND_CAP or len(s) > LEN_CAP:
+                if rounds > case.get("round_cap", ROUND_CAP) or len(s) > case.get("len_cap", LEN_CAP):
                     raise Diverges()
         elif k == "ext":
             if nd["active"]:
@@ -1117,7 +1503,7 @@ def check_matches(s, ms, ngroups):
 # loader streams: raw line soups (every declaration kind, malformed lines, unbalanced groups, missing files)
 # and normalised trees for the renderer round trip
 
-LINE_POOL = ["!a\tb", "!a\t\tb c", "!(a)\t\\1\tx", "!a", "!\tb", "!a b\t", "=a ", "=", "#1", "#2", "#3", "#", "#", "#", "# ",
+LINE_POOL = ["#01", ">01", "#10", ">10", "#01", ">1", "!a\tb", "!a\t\tb c", "!(a)\t\\1\tx", "!a", "!\tb", "!a b\t", "=a ", "=", "#1", "#2", "#3", "#", "#", "#", "# ",
              "#x", "#1 ", ">1", ">2", ">3", ">4", ">", " >1", ">m0", ">m1", ">m9", ">m0 ", "<inc0.rpp", "<inc1.rpp", "<nofile",
              "<inc0.rpp  ", ":[ ]+", ": ", ":x", "@info", "@", ";c", "", "  ", " !a\tb", "?x", "!a\tb", "!b\t\\1x", "\t", ";"]
 
@@ -1163,8 +1549,18 @@ def gen_load_case(rng):
             files = {}
     if load_cyclic(main, files):
         return gen_load_case(rng)       # include / module cycles never terminate in the real loader
-    return {"kind": "load", "lines": [cps(x) for x in main], "files": {fn: [cps(x) for x in ls] for fn, ls in files.items()},
-            "mode": mode, "pre": pre}
+    c = {"kind": "load", "lines": [cps(x) for x in main], "files": {fn: [cps(x) for x in ls] for fn, ls in files.items()},
+         "mode": mode, "pre": pre}
+    if rng.random() < 0.5:
+        # TEXT variants: line terminators (CRLF, bare CR, FF, NEL, LS ...), no final newline, trailing blank lines;
+        # sometimes a boundary character inside a line
+        c["eol"] = rng.choice(EOL_STYLES)
+        if rng.random() < 0.2:
+            tgt = rng.choice([main] + list(files.values()))
+            tgt.insert(rng.randrange(len(tgt) + 1), rng.choice(BREAK_LINES))
+            c["lines"] = [cps(x) for x in main]
+            c["files"] = {fn: [cps(x) for x in ls] for fn, ls in files.items()}
+    return c
 
 
 def load_cyclic(main, files):
@@ -1194,7 +1590,7 @@ def load_cyclic(main, files):
 
 def gen_render_case(rng):
     pre = rng.choice([[], ["m0"], ["m0", "mod"]])
-    names = [str(i) for i in range(1, 6)]
+    names = ["1", "2", "3", "10", "01"]
     rng.shuffle(names)
     defined = []
     bad = rng.random() < 0.25          # sometimes outside the well-formed trees
@@ -1219,7 +1615,7 @@ def gen_render_case(rng):
                 if bad and rng.random() < 0.15:
                     names.append(nm)            # defined twice
             elif r < 0.9:
-                pool = ["1", "2", "3", "4", "5"] if (bad or rng.random() < 0.5) else list(defined)
+                pool = ["1", "2", "3", "10", "01"] if (bad or rng.random() < 0.5) else list(defined)
                 if pool:
                     out.append({"k": "call", "n": rng.choice(pool)})
             elif pre or bad:
@@ -1412,7 +1808,7 @@ def c14_tables():
 class C13(Check):
     pid = "C13"
     driver = "Verif/C13/Driver.lean"
-    quick_cases = 1500
+    quick_cases = 1100
     thorough_cases = 20000
     rule = ("REPP programs from a regex grammar (literals, classes, ? * + {m,n}, anchors, alternation, lookahead, 0-4 "
             "capture groups incl. optional, nested, empty and named) with templates mixing literals, \\N, \\g<N>, "
@@ -1445,9 +1841,14 @@ class C13(Check):
         "rendered text (files, preloaded modules) and on raw / damaged line lists; the link from the loaded module "
         "to the executable operation tree of the semantics model (template parsing, call expansion) is made by the "
         "harness and checked by the oracle (loaded tree == program tree)",
-        "reuse / purity (same REPP object used again with other active sets and tokenization patterns, same files "
-        "loaded again, lattices written and read again) is decided by the direct oracle only: the models are pure "
-        "functions, for which these clauses hold by construction",
+        "one object under a history of activate / deactivate / apply / trace calls is modelled (Link.runCalls) and compared "
+        "with ONE real REPP object per program with external modules; the rest of reuse / purity (other tokenization "
+        "patterns, same files loaded again, argument types, abandoned trace generators, calls that raised, lattices "
+        "written and read again) is decided by the direct oracle only",
+        "text to lines (str.splitlines) is modelled (Text.lean) and compared on raw texts with CRLF / bare CR / FF / NEL / "
+        "LS ... terminators, no final newline, trailing blank lines; the other construction paths (from_file directory= "
+        "and modules=, from_config, module names) and long inputs (1024 / 4096 / 65536 characters, hundreds of rounds) "
+        "are checked by the direct oracle only",
         "template validation by re (bad escapes) is not modelled; only 'group reference beyond the pattern's groups' "
         "is (re.error at load)",
     ]
@@ -1459,6 +1860,7 @@ class C13(Check):
         self._cache = {}
         self._req = {}
         self.skipped = {}
+        self.api_counts = {}
         self.diverging = 0
 
     def setup(self):
@@ -1474,7 +1876,8 @@ class C13(Check):
 
     def extra_evidence(self):
         return {"diverging_skipped": self.diverging, "regex_module": "stdlib re", "not_compared": dict(self.skipped),
-                "alarms": TIMEOUTS["n"], "alarm_seconds": round(TIMEOUTS["spent"], 1)}
+                "alarms": TIMEOUTS["n"], "alarm_seconds": round(TIMEOUTS["spent"], 1),
+                "construction_paths": dict(self.api_counts), "state_batteries": dict(BATTERY)}
 
     def tables(self):
         """Pins: constants of the anchored code that the hand-written models mirror (see c13_pins in Props.lean)"""
@@ -1490,6 +1893,8 @@ class C13(Check):
         yield from specimen_cases(L, tier)
         # a load error
         yield make_case([{"k": "rule", "id": 0}], [{"pat": "(a)(b)", "tpl": r"\1\3"}], [], ["ab"], kind="loaderr")
+        if self.loader_stream:
+            yield from long_cases(tier)
         if self.loader_stream:
             k = 0
             while k < n // 4:
@@ -1531,7 +1936,7 @@ class C13(Check):
             if own:
                 self.setup()
             try:
-                self._cache[key] = observe(case, self.tmp)
+                self._cache[key] = observe(case, self.tmp, session=(self.pid == "C13"))
             finally:
                 if own:
                     self.teardown()
@@ -1544,6 +1949,8 @@ class C13(Check):
             return self.impl_load(case)
         if case["kind"] == "render":
             return self.impl_render(case)
+        if case["kind"] == "long":
+            return self.impl_long(case)
         obs = self.full(case)
         self.model_request(case)          # built now, while the observation is at hand
         if "err" in obs:
@@ -1551,11 +1958,14 @@ class C13(Check):
         runs = []
         for run in obs["runs"]:
             runs.append(run if "err" in run else {k: run[k] for k in self.KEYS if k in run})
-        return {"load": [None if x is None else {"tracked": x["tracked"], "untracked": x["untracked"]} for x in obs["load"]],
-                "runs": runs, "loaded": obs["loaded"]}
+        out = {"load": [None if x is None else {"tracked": x["tracked"], "untracked": x["untracked"]} for x in obs["load"]],
+               "runs": runs, "loaded": obs["loaded"]}
+        if "session" in obs:
+            out["session"] = obs["session"]["answers"]
+        return out
 
     # ---- loader cases: raw line soups, and rendered trees
-    def real_load(self, lines, files, mode, pre):
+    def real_load(self, lines, files, mode, pre, eol=None):
         """the real loader on the given text; `pre`: names of preloaded one-rule modules"""
         own = self.tmp is None
         if own:
@@ -1564,28 +1974,28 @@ class C13(Check):
             with warnings.catch_warnings():
                 warnings.simplefilter("ignore")
                 try:
-                    return with_timeout(3.0, lambda: self._real_load(lines, files, mode, pre), floor=1.0)
+                    return with_timeout(3.0, lambda: self._real_load(lines, files, mode, pre, eol), floor=1.0)
                 except Timeout:
                     return {"err": "fuel"}
         finally:
             if own:
                 self.teardown()
 
-    def _real_load(self, lines, files, mode, pre):
+    def _real_load(self, lines, files, mode, pre, eol=None):
         if True:
             if True:
                 try:
                     if mode == "file":
                         d = tempfile.mkdtemp(dir=self.tmp)
                         for fn, ls in files.items():
-                            with open(os.path.join(d, fn), "w", encoding="utf-8") as f:
-                                f.write("".join(x + "\n" for x in ls))
-                        with open(os.path.join(d, "main.rpp"), "w", encoding="utf-8") as f:
-                            f.write("".join(x + "\n" for x in lines))
+                            with open(os.path.join(d, fn), "w", encoding="utf-8", newline="") as f:
+                                f.write(join_text(ls, eol))
+                        with open(os.path.join(d, "main.rpp"), "w", encoding="utf-8", newline="") as f:
+                            f.write(join_text(lines, eol))
                         r = REPP.from_file(os.path.join(d, "main.rpp"))
                     else:
                         mods = {n: REPP.from_string("!q\tr") for n in pre}
-                        r = REPP.from_string("\n".join(lines), modules=mods)
+                        r = REPP.from_string("\n".join(lines) if eol is None else join_text(lines, eol), modules=mods)
                     return dump_loaded(r, pre)
                 except R.REPPError:
                     return {"err": "REPPError"}
@@ -1598,10 +2008,52 @@ class C13(Check):
                 except RecursionError:
                     return {"err": "fuel"}
 
+    def impl_long(self, case):
+        """long inputs: result of apply (digest), maps' lengths, trace's last element"""
+        import hashlib
+        own = self.tmp is None
+        if own:
+            self.setup()
+        try:
+            r = build(case, self.tmp)
+            runs = []
+            for inp in case["inputs"]:
+                s = uncps(inp)
+                try:
+                    x = with_timeout(20.0, lambda: r.apply(s), floor=5.0)
+                except Exception as e:      # noqa: BLE001
+                    runs.append({"err": err_name(e)})
+                    continue
+                *_, last = r.trace(s)
+                runs.append({"len": len(x.string), "sha": hashlib.sha1(x.string.encode("utf-8")).hexdigest(),
+                             "maps": [len(x.startmap), len(x.endmap)], "tracelast": last.string == x.string})
+            return {"runs": runs}
+        finally:
+            if own:
+                self.teardown()
+
+    def oracle_long(self, case, res):
+        import hashlib
+        fails = []
+        for inp, run in zip(case["inputs"], res["runs"]):
+            s = uncps(inp)
+            want = ref_run(case, case["prog"], s, [])
+            if "err" in run:
+                fails.append({"clause": "apply raises or does not terminate on a long input although the reference reaches a result",
+                              "detail": repr((len(s), run["err"], len(want)))})
+                continue
+            if run["sha"] != hashlib.sha1(want.encode("utf-8")).hexdigest():
+                fails.append({"clause": "apply(s).string differs from the ordered regex substitutions (long input / many rounds)",
+                              "detail": repr((case["rules"], "len(s)=%d" % len(s), s[:12], "got len %d" % run["len"],
+                                              "want len %d" % len(want)))})
+            if run["maps"] != [len(want) + 2, len(want) + 2] or not run["tracelast"]:
+                fails.append({"clause": "long input: maps' lengths / last element of trace", "detail": repr((len(s), run))})
+        return fails
+
     def impl_load(self, case):
         return {"loaded": self.real_load([uncps(x) for x in case["lines"]],
                                          {fn: [uncps(x) for x in ls] for fn, ls in case["files"].items()},
-                                         case["mode"], case["pre"])}
+                                         case["mode"], case["pre"], case.get("eol"))}
 
     def impl_render(self, case):
         lines = ([] if case["info"] is None else ["@" + case["info"]]) + ([] if case["tok"] is None else [":" + case["tok"]]) \
@@ -1618,9 +2070,11 @@ class C13(Check):
         return req
 
     def build_request(self, case):
+        if case["kind"] == "long":
+            return None
         if case["kind"] == "load":
             req = load_request([uncps(x) for x in case["lines"]], {fn: [uncps(x) for x in ls] for fn, ls in case["files"].items()},
-                               case["mode"] == "file", case["pre"])
+                               case["mode"] == "file", case["pre"], eol=case.get("eol"))
             req["op"] = "load"
             return req
         if case["kind"] == "render":
@@ -1681,6 +2135,9 @@ class C13(Check):
                         "masks": [cps(x) for x in case["masks"]]}}
         if case["kind"] == "masked":
             req["meng"] = obs["meng"]        # selects the mask-threading semantics of the model
+        if "session" in obs and self.pid == "C13":
+            req["calls"] = obs["session"]["calls"]
+            req["defaults"] = obs["session"]["defaults"]
         return req
 
     def model_compare(self, case, expected, answer):
@@ -1725,6 +2182,20 @@ class C13(Check):
         for i, (e, a) in enumerate(zip(expected["load"], answer.get("load", []))):
             if e is not None and e != a:
                 return {"rule": i, "expected_from_impl": e, "model": a}
+        if "session" in expected:
+            got = answer.get("session")
+            if not isinstance(got, list) or len(got) != len(expected["session"]):
+                return {"session": "missing", "model": got}
+            for i, (e, a) in enumerate(zip(expected["session"], got)):
+                if e is None or a is None:
+                    if e is not a:
+                        return {"session_call": i, "expected_from_impl": e, "model": a}
+                    continue
+                a = {k: a.get(k) for k in e} if isinstance(a, dict) else a
+                if a != e:
+                    bad = [k for k in e if not isinstance(a, dict) or a.get(k) != e[k]]
+                    return {"session_call": i, "call": self.full(case)["session"]["calls"][i], "keys": bad,
+                            "expected_from_impl": {k: e[k] for k in bad}, "model": a}
         if len(expected["runs"]) != len(answer["runs"]):
             return {"expected_runs": len(expected["runs"]), "model_runs": len(answer["runs"])}
         for i, (e, a) in enumerate(zip(expected["runs"], answer["runs"])):
@@ -1761,6 +2232,8 @@ class C13(Check):
             fails.append({"clause": clause, "detail": detail})
         if case["kind"] == "load":
             return self.oracle_load(case, res)
+        if case["kind"] == "long":
+            return self.oracle_long(case, res)
         if case["kind"] == "render":
             want = render_expected(case)
             if want is not None and res["loaded"] != want and res["loaded"].get("err") != "re.error":
@@ -1780,6 +2253,15 @@ class C13(Check):
                 ref_err = "re.error"
             if obs["err"] != ref_err:
                 fail("module does not load although every rule is a valid regex substitution", repr((obs["err"], ref_err)))
+            if case["kind"] == "loaderr":
+                own = self.tmp is None
+                if own:
+                    self.setup()
+                try:
+                    fails.extend(config_error_paths(self.tmp))
+                finally:
+                    if own:
+                        self.teardown()
             return fails
         if obs["tree"] != expected_tree(case, case["prog"]):
             fail("loaded operation tree differs from the program (groups, external calls, includes in place)",
@@ -1851,6 +2333,20 @@ class C13(Check):
             v = self.variant(case, case["prog"], via="file")
             if strip_obs(v) != base:
                 fail("loading from files differs from loading from strings", repr((strip_obs(v), base))[:600])
+        # the other public construction paths (directory=, modules=, from_config, module names)
+        if has_kind(case["prog"], "ext") or has_kind(case["prog"], "incl") or len(json.dumps(case)) % 5 == 0:
+            want = [run if "err" in run else {k: run[k] for k in ("string", "startmap", "endmap")} for run in obs["runs"]]
+            own = self.tmp is None
+            if own:
+                self.setup()
+            try:
+                for label, got in api_variants(case, self.tmp, sorted(active_names(case["prog"])), self.api_counts):
+                    if got != want and not any("err" in w for w in want):
+                        fail("construction path gives a different result: " + label.split(" ")[0],
+                             repr((label, got, want))[:700])
+            finally:
+                if own:
+                    self.teardown()
         return fails
 
     def oracle_masked(self, case):
@@ -1924,10 +2420,17 @@ class C13(Check):
         """including a file equals splicing its lines in place — on the real loader, at every depth, for
         well-formed and malformed text alike (same module or same error)"""
         fails = []
-        if case["mode"] != "file":
-            return fails
         lines = [uncps(x) for x in case["lines"]]
         files = {fn: [uncps(x) for x in ls] for fn, ls in case["files"].items()}
+        # TEXT variants: the line terminators (and a missing final newline, trailing blank lines) do not matter
+        if case.get("eol") and not any(ch in ln for ln in lines + [x for ls in files.values() for x in ls]
+                                       for ch in "\n\r\x0b\x0c\x1c\x1d\x1e\x85\u2028\u2029"):
+            plain = self.real_load(lines, files, case["mode"], case["pre"], None)
+            if plain != res["loaded"] and "fuel" not in (plain.get("err"), res["loaded"].get("err")):
+                fails.append({"clause": "the line terminators of the text change the loaded module (style %s)" % case["eol"],
+                              "detail": repr((res["loaded"], plain))[:900]})
+        if case["mode"] != "file":
+            return fails
         # splice the first include line of the main text, and the first one inside any file
         targets = [("main", lines)] + sorted(files.items())
         for label, ls in targets:
@@ -1936,9 +2439,9 @@ class C13(Check):
                     fl = files[ln[1:].rstrip()]
                     spliced = ls[:i] + fl + ls[i + 1:]
                     if label == "main":
-                        got = self.real_load(spliced, files, "file", [])
+                        got = self.real_load(spliced, files, "file", [], case.get("eol"))
                     else:
-                        got = self.real_load(lines, dict(files, **{label: spliced}), "file", [])
+                        got = self.real_load(lines, dict(files, **{label: spliced}), "file", [], case.get("eol"))
                     if got != res["loaded"] and "fuel" not in (got.get("err"), res["loaded"].get("err")):
                         fails.append({"clause": "including a file differs from splicing its lines in place (loader)",
                                       "detail": repr((label, i, ln, res["loaded"], got))[:900]})
@@ -1949,11 +2452,17 @@ class C13(Check):
         def inc(k, n=1):
             counters[k] = counters.get(k, 0) + n
         inc("kind:" + case["kind"])
+        if case["kind"] == "long":
+            for inp in case["inputs"]:
+                inc("long:inputs")
+                inc("long:len>=%d" % (65535 if len(inp) >= 65535 else 4095 if len(inp) >= 4095 else 1000 if len(inp) >= 1000 else 0))
+            return
         if case["kind"] in ("load", "render"):
             ld = res.get("loaded", {}) if isinstance(res, dict) else {}
             inc("loader:" + (ld.get("err") or "ok"))
             if case["kind"] == "load":
                 inc("loader_mode:" + case["mode"])
+                inc("eol:" + str(case.get("eol")))
                 txt = [uncps(x) for x in case["lines"]] + [uncps(x) for ls in case["files"].values() for x in ls]
                 for ln in txt:
                     inc("line:" + (ln[0] if ln and ln[0] in "!<>=#:@;" else "other"))
@@ -2006,6 +2515,9 @@ class C13(Check):
                     inc("matches:empty")
                 if any(g is None for g in m["g"]):
                     inc("matches:unmatched_group")
+        if "session" in obs:
+            inc("session:histories")
+            inc("session:calls", len(obs["session"]["calls"]))
         for run in obs["runs"]:
             if "err" in run:
                 inc("run_err:" + run["err"])
@@ -2023,6 +2535,8 @@ class C13(Check):
             return json.dumps(case, sort_keys=True) if case["lines"] else None
         if case["kind"] == "render":
             return json.dumps(case, sort_keys=True) if case["nodes"] else None
+        if case["kind"] == "long":
+            return json.dumps(case["rules"]) + str([len(i) for i in case["inputs"]])
         if not isinstance(res, dict) or "runs" not in res:
             return None
         obs = self.full(case)
